@@ -211,7 +211,7 @@ def history(ctx, spec):
                 pairs=1 if kind == 'bdd' else 0, declare=2,
                 undeclare=2 if kind == 'bdd' else 0, canon=10,
                 copy_roundtrip=2, dump_load=2,
-                gc_rooted=1)
+                gc_rooted=1, clone=1 if kind == 'bdd' else 0)
     for k in range(spec['steps']):
         ok, res = ctx.guard(w.site, w.step, menu, case=dict(
             spec=spec, step=k, tail=[list(map(str, d)) for d in w.log[-6:]]))
